@@ -191,8 +191,8 @@ func handleJcc(params x86genParams, ctx *CodeGenContext) ([]byte, error) {
 
 // encodeRelativeBranch は相対分岐をエンコードします。変位は「次の命令のアドレス」からの距離です。
 // shortOp が nil でなく forceNear でもなければ、rel8 に収まる場合は short 形式を使います。
-// near 形式の変位幅はオペランドサイズ (16 ビットモードでは rel16、32 ビットモードでは rel32) です。
-// 16 ビットモードで 64K に収まらない分岐先は 66h プレフィックス付きの rel32 形式になります。
+// near 形式の変位幅はオペランドサイズ (16 ビットモードでは rel16、32 ビットモードでは rel32) で、
+// pass1 が数えたサイズ (16 ビット: 3/4 バイト、32 ビット: 5/6 バイト) と常に一致します。
 func encodeRelativeBranch(shortOp, nearOp []byte, destAddr, currentAddr int64, bitMode cpu.BitMode, forceNear bool) ([]byte, error) {
 	if shortOp != nil && !forceNear {
 		rel := destAddr - (currentAddr + int64(len(shortOp)) + 1)
@@ -201,17 +201,9 @@ func encodeRelativeBranch(shortOp, nearOp []byte, destAddr, currentAddr int64, b
 		}
 	}
 	if bitMode == cpu.MODE_16BIT {
+		// IP は 16 ビットで 64K で折り返すので、rel16 は 2^16 を法として計算すればよい
 		rel := destAddr - (currentAddr + int64(len(nearOp)) + 2)
-		if rel >= -0x8000 && rel <= 0x7fff || (destAddr >= 0 && destAddr <= 0xffff && currentAddr >= 0 && currentAddr+int64(len(nearOp))+2 <= 0x10000) {
-			// IP は 64K で折り返すので、同じセグメント内ならどこへでも rel16 で届く
-			return append(append([]byte{}, nearOp...), byte(rel), byte(rel>>8)), nil
-		}
-		rel = destAddr - (currentAddr + int64(len(nearOp)) + 5)
-		if rel < -0x80000000 || rel > 0x7fffffff {
-			return nil, fmt.Errorf("branch target %#x out of range", destAddr)
-		}
-		code := append([]byte{0x66}, nearOp...)
-		return append(code, byte(rel), byte(rel>>8), byte(rel>>16), byte(rel>>24)), nil
+		return append(append([]byte{}, nearOp...), byte(rel), byte(rel>>8)), nil
 	}
 	rel := destAddr - (currentAddr + int64(len(nearOp)) + 4)
 	if rel < -0x80000000 || rel > 0x7fffffff {
